@@ -123,9 +123,88 @@ def pos_record(p, scale: int = 1) -> Dict:
     return {"k": "?", "r": [0, 0], "q": [0, 0], "sh": 0, "sc": isc}
 
 
+def tandem_case(rng: random.Random):
+    """a short tandem-repeat array with one unit more / less in the query, plus label noise inside the array:
+    the segments seeded on the diagonals of the two flanks overlap on the (periodic) array labels
+    -> dense conflicts cut strictly inside the overlap. Returns (ref, query coords, truth, peaks_fwd)"""
+    x = rng.randint(2000, 9000)
+    ref = []
+    nl, nr = rng.randint(8, 18), rng.randint(8, 18)
+    for _ in range(nl):
+        ref.append(x)
+        x += rng.randint(4000, 14000)
+    unit = [rng.randint(1400, 3200) for _ in range(rng.choice([2, 2, 3]))]
+    units = rng.randint(2, 4)
+    arr0 = len(ref)
+    for _ in range(units):
+        for g in unit:
+            ref.append(x)
+            x += g
+    arr1 = len(ref)
+    for _ in range(nr):
+        ref.append(x)
+        x += rng.randint(4000, 14000)
+    ulen = sum(unit)
+    delta = rng.choice([-1, 1, 1])
+    if units + delta < 1:
+        delta = 1
+    # query: left flank + (units + delta) units + right flank
+    wl, wr = rng.randint(5, nl), rng.randint(5, nr)
+    q = [(ref[i], i + 1) for i in range(nl - wl, arr0)]
+    y = ref[arr0]
+    for _ in range(units + delta):
+        for g in unit:
+            q.append((y, 0))
+            y += g
+    for i in range(arr1, arr1 + wr):
+        q.append((ref[i] + delta * ulen, i + 1))
+    # noise inside / near the array
+    out = []
+    for (v, r) in q:
+        inarr = ref[arr0] - 3000 <= v <= ref[arr1 - 1] + delta * ulen + 3000
+        if inarr and rng.random() < 0.12 and r == 0:
+            continue                                   # missing label
+        v2 = v + (rng.choice([-1, 1]) * rng.randint(250, 650) if inarr and rng.random() < 0.2 else int(rng.gauss(0, 60)))
+        out.append((v2, r))
+        if inarr and rng.random() < 0.12:
+            out.append((v2 + rng.randint(300, 1100), 0))   # false-positive label
+    out.sort()
+    base = out[0][0]
+    coords = [v - base for v, _ in out]
+    truth = [(r, k + 1) for k, (_, r) in enumerate(out) if r]
+    left = [t for t in truth if t[0] <= arr0] or truth[:1]
+    right = [t for t in truth if t[0] > arr1] or truth[-1:]
+    return ref, coords, truth, left, right
+
+
 def ladder_case(rng: random.Random):
     """a realistic multi-peak input for Aligner.getSegments / resolveConflicts / align:
     returns dict(ref, qry (forward, trimmed), rev, peaks, params, truth)"""
+    if rng.random() < 0.25:
+        ref, coords, truth, left, right = tandem_case(rng)
+        qry = coords
+        rev = rng.random() < 0.5
+        qlen = qry[-1] + 1
+        n = len(qry)
+        if rev:
+            stored = sorted((qlen - 1) - c for c in qry)
+            truth = [(r, n + 1 - q) for r, q in truth]
+            left = [(r, n + 1 - q) for r, q in left]
+            right = [(r, n + 1 - q) for r, q in right]
+            fed = [(qlen - 1) - stored[k] for k in range(n)]
+        else:
+            stored = qry
+            fed = list(qry)
+        peaks = []
+        for grp in (left, right):
+            r, q = rng.choice(grp)
+            peaks.append(ref[r - 1] - fed[q - 1] + rng.randint(-120, 120))
+        if rng.random() < 0.5:
+            peaks.reverse()
+        params = Params(sp=1000, dp=rng.choice([1.0, 1.0, 0.5]), su=rng.choice([-250, -250, -100]),
+                        d=rng.choice([1500, 1500, 1000, 2000]), ms=1000, bs=rng.choice([1200, 1200, 2500]),
+                        sj=rng.choice([1.0, 1.0, 0.5]), ss=rng.choice([0, 0, 1]))
+        return dict(ref=ref, qry=stored, rev=rev, peaks=peaks, params=params, truth=truth, qlen=qlen)
     nref = rng.randint(25, 60)
     ref = make_reference(rng, nref, min_gap=rng.choice([400, 800, 2000]), mean_gap=rng.choice([5000, 9000, 14000]),
                          repeats=rng.random() < 0.35)
@@ -134,11 +213,20 @@ def ladder_case(rng: random.Random):
     w0 = rng.randint(0, nref - wlen)
     style = rng.random()
     indel = None
-    if style < 0.45:
-        indel = (rng.randint(w0 + 2, w0 + wlen - 2), rng.choice([-1, 1]) * rng.randint(1500, 40000))
-    coords, truth = cut_query(rng, ref, w0, w0 + wlen, sigma=rng.choice([0, 120, 300]),
-                              stretch=rng.choice([1.0, 1.0, 0.95, 1.04, 1.08]),
-                              drop=rng.choice([0, 0.08, 0.15]), extra=rng.choice([0, 0.08]), indel=indel)
+    small_indel = rng.random() < 0.3
+    maxd = rng.choice([500, 1500, 1500, 3000])
+    if small_indel:
+        # an indel smaller than ~2 maxDistance: the segments seeded on the two diagonals overlap over many labels,
+        # some labels pair on one diagonal only -> cuts strictly inside the overlap with asymmetric sub-segments
+        indel = (rng.randint(w0 + 3, w0 + wlen - 3), rng.choice([-1, 1]) * rng.randint(int(0.4 * maxd), int(1.7 * maxd)))
+        coords, truth = cut_query(rng, ref, w0, w0 + wlen, sigma=rng.choice([0, 60, 120]), stretch=1.0,
+                                  drop=rng.choice([0.05, 0.12, 0.2]), extra=rng.choice([0.1, 0.2]), indel=indel)
+    else:
+        if style < 0.45:
+            indel = (rng.randint(w0 + 2, w0 + wlen - 2), rng.choice([-1, 1]) * rng.randint(1500, 40000))
+        coords, truth = cut_query(rng, ref, w0, w0 + wlen, sigma=rng.choice([0, 120, 300]),
+                                  stretch=rng.choice([1.0, 0.93, 0.96, 1.03, 1.05, 1.08]),
+                                  drop=rng.choice([0, 0.08, 0.15]), extra=rng.choice([0, 0.08]), indel=indel)
     qry = [c - coords[0] for c in coords]
     rev = rng.random() < 0.5
     qlen = qry[-1] + 1
@@ -153,11 +241,34 @@ def ladder_case(rng: random.Random):
         fed_of_label = {k + 1: qry[k] for k in range(len(qry))}
     fed = [fed_of_label[k + 1] for k in range(len(stored))]
     params = Params(sp=rng.choice([1000, 1000, 600]), dp=rng.choice([1.0, 1.0, 0.5, 2.0]),
-                    su=rng.choice([-250, -250, -100, -500]), d=rng.choice([500, 1500, 1500, 3000]),
+                    su=rng.choice([-250, -250, -100, -500]), d=maxd,
                     ms=rng.choice([1000, 1000, 600, 2000]), bs=rng.choice([1200, 1200, 600, 2500]),
                     sj=rng.choice([1.0, 1.0, 0.5, 0.0]), ss=rng.choice([0, 0, 1]))
     k = rng.randint(2, 7)
-    peaks = ladder_peaks(rng, ref, fed, truth, k, jitter=rng.choice([0, 300, 300, 800]))
+    if small_indel:
+        before = [t for t in truth if t[0] <= indel[0]] or truth[:1]
+        after = [t for t in truth if t[0] > indel[0]] or truth[-1:]
+        peaks = []
+        for grp in (before, after):
+            r, q = rng.choice(grp)
+            peaks.append(ref[r - 1] - fed[q - 1] + rng.randint(-100, 100))
+        if rng.random() < 0.3:
+            peaks.append((peaks[0] + peaks[1]) // 2)
+        if rng.random() < 0.5:
+            peaks.reverse()
+    elif rng.random() < 0.5 and len(truth) >= 8:
+        # "stretch ladder": seeds on the diagonals of evenly spaced label pairs, so that neighbouring seeds give
+        # overlapping segments (real conflicts, cuts strictly inside the overlap)
+        step = max(2, len(truth) // k)
+        jit = rng.choice([0, 150, 400])
+        peaks = []
+        for i in range(0, len(truth), step):
+            r, q = truth[i]
+            peaks.append(ref[r - 1] - fed[q - 1] + rng.randint(-jit, jit))
+        if rng.random() < 0.5:
+            rng.shuffle(peaks)
+    else:
+        peaks = ladder_peaks(rng, ref, fed, truth, k, jitter=rng.choice([0, 300, 300, 800]))
     return dict(ref=ref, qry=stored, rev=rev, peaks=peaks, params=params, truth=truth, qlen=qlen)
 
 
